@@ -646,11 +646,61 @@ def eval_dup_history(case):
     return out
 
 
+def eval_named_wordset(case):
+    """a wordset registered by the application under a name (default_wordsets[name] = words, or set_path(name,
+    file)) and selected with wordset=name: repeated words (also words that only differ by surrounding blanks in
+    the file) must be refused, or the phrase must still carry the requested entropy over the DISTINCT words"""
+    import os
+    import tempfile
+
+    from passlib import pwd as P
+
+    how, entropy = case["how"], case["entropy"]
+    words = ["amber", "birch", "cedar", "amber", "delta", "birch", "amber", "elm"]  # 8 entries, 5 distinct
+    name = f"c06_{how}"
+    tmp = None
+    out = []
+    try:
+        if how == "assigned_list":
+            P.default_wordsets[name] = list(words)
+        elif how == "assigned_tuple":
+            P.default_wordsets[name] = tuple(words)
+        elif how == "assigned_text":
+            P.default_wordsets[name] = " ".join(words)
+        else:
+            fd, tmp = tempfile.mkstemp(prefix="c06-words-", suffix=".txt")
+            with os.fdopen(fd, "w") as fh:
+                fh.write("\n".join(w + ("  " if i % 3 == 0 else "") for i, w in enumerate(words)) + "\n")
+            P.default_wordsets.set_path(name, tmp)
+        try:
+            got = P.genphrase(entropy=entropy, wordset=name, sep=" ")
+        except ValueError:
+            return []
+        n = len(got.split(" "))
+        have = n * math.log2(5)
+        if have + 1e-9 < entropy:
+            out.append((f"C06|genphrase|named_wordset:entropy_shortfall:{how}",
+                        f"genphrase(entropy={entropy}, wordset=<{how}: 8 entries, 5 distinct words>) was accepted and made {n} words = {have:.1f} bits < {entropy} requested"))
+    except Exception as e:  # noqa: BLE001
+        out.append((f"C06|genphrase|named_wordset:raises:{type(e).__name__}:{how}", f"registering / using a named wordset ({how}) raised {e!r}"))
+    finally:
+        try:
+            P.default_wordsets._loaded.pop(name, None)
+            P.default_wordsets.paths.pop(name, None)
+        except Exception:  # noqa: BLE001
+            pass
+        if tmp:
+            os.unlink(tmp)
+    return out
+
+
 def replay(case):
     if case.get("part") == "pin":
         return eval_pin(case)
     if case.get("part") == "dup_history":
         return eval_dup_history(case)
+    if case.get("part") == "named_wordset":
+        return eval_named_wordset(case)
     return analyse(case["spec"], case.get("quick", True))
 
 
@@ -755,8 +805,13 @@ def work(task):
     if task.get("part") == "dup_history":
         for case in task["cases"]:
             acc.ev()
-            acc.cls("dup_history", case["kind"], case["form"], case["entropy"])
-            for key, desc in eval_dup_history(case):
+            if case.get("part") == "named_wordset":
+                acc.cls("named_wordset", case["how"], case["entropy"])
+                found = eval_named_wordset(case)
+            else:
+                acc.cls("dup_history", case["kind"], case["form"], case["entropy"])
+                found = eval_dup_history(case)
+            for key, desc in found:
                 acc.violation(key, desc, case)
         acc.axis("part", "dup_history")
         return acc
@@ -787,6 +842,7 @@ def run(ctx):
         tasks.append({"part": "pin", "cases": pins[i : i + 64]})
     dups = [{"part": "dup_history", "kind": k, "form": f, "entropy": e}
             for k, forms in (("genword", ("str", "bytes")), ("genphrase", ("list", "tuple", "iter"))) for f in forms for e in (24, 40)]
+    dups += [{"part": "named_wordset", "how": h, "entropy": e} for h in ("assigned_list", "assigned_tuple", "assigned_text", "path") for e in (24, 40)]
     tasks.append({"part": "dup_history", "cases": dups})
     ctx.log(f"{len(ts)} generator targets, {len(pins)} pinning cases")
     acc = core.pmap(work, tasks)
